@@ -64,9 +64,12 @@ class KexNistp256:
 
     def _parse_kexecdh_init(self, m):
         Q_C_bytes = m.get_string()
-        self.Q_C = ec.EllipticCurvePublicKey.from_encoded_point(
-            self.curve, Q_C_bytes
-        )
+        try:
+            self.Q_C = ec.EllipticCurvePublicKey.from_encoded_point(
+                self.curve, Q_C_bytes
+            )
+        except ValueError:
+            raise SSHException("Invalid ECDH public key from peer")
         K_S = self.transport.get_server_key().asbytes()
         K = self.P.exchange(ec.ECDH(), self.Q_C)
         K = int(hexlify(K), 16)
@@ -110,9 +113,12 @@ class KexNistp256:
     def _parse_kexecdh_reply(self, m):
         K_S = m.get_string()
         Q_S_bytes = m.get_string()
-        self.Q_S = ec.EllipticCurvePublicKey.from_encoded_point(
-            self.curve, Q_S_bytes
-        )
+        try:
+            self.Q_S = ec.EllipticCurvePublicKey.from_encoded_point(
+                self.curve, Q_S_bytes
+            )
+        except ValueError:
+            raise SSHException("Invalid ECDH public key from peer")
         sig = m.get_binary()
         K = self.P.exchange(ec.ECDH(), self.Q_S)
         K = int(hexlify(K), 16)
